@@ -3,6 +3,8 @@ import GqlgenVerif.Lemmas.PipelineCount
 import GqlgenVerif.Lemmas.PipelineRace
 import GqlgenVerif.Lemmas.PipelineCache
 import GqlgenVerif.Gen.PipelineSteps
+import GqlgenVerif.Model.PipelineTransport
+import GqlgenVerif.Gen.TransportGates
 /-!
 # C03 — nothing executes unless the operation passed parsing, validation and every gate; hook order
 
@@ -304,8 +306,122 @@ theorem concurrent_validate_sees_field_rule (g : Rules) (n : Nat) (sched : List 
   exact locked_safe g n sched
 
 open Race in
+/-- the guard shape of the source, three-valued (regenerated on every run) -/
+theorem gen_lock_shape_is_atomic :
+    LockShape.ofCode (Steps.lockShapeCode Gen.PipelineSteps.parseQuerySteps) = .atomic := by decide
+
+open Race in
+/-- **Several executors in one process** (the rule list is global): `n` concurrent requests on executors
+with `disableSuggestion` and `m` concurrent requests on executors *without* it (they never swap, they
+only `Validate`), from any rule list that has a field-existence rule, under **every schedule**: every
+`Validate` of every executor runs with a field-existence rule in the list. Stated over the guard shape
+regenerated from the source. -/
+theorem concurrent_validate_sees_field_rule_all_executors (g : Rules) (hg : hasFieldRule g = true)
+    (n m : Nat) (sched : List Nat) :
+    ∀ t ∈ (exec (startMixed (LockShape.ofCode (Steps.lockShapeCode Gen.PipelineSteps.parseQuerySteps)) g n m) sched).threads,
+      ∀ l, t.seen = some l → hasFieldRule l = true := by
+  rw [gen_lock_shape_is_atomic]
+  exact mixed_safe g hg n m sched
+
+/-- non-vacuity of the hypothesis: the list every process starts with -/
+example : Race.hasFieldRule initRules = true := by decide
+
+open Race in
+/-- **Why one writer region around both calls is needed**: with `RemoveRule` and `ReplaceRule` each in a
+writer region of its own (no data race, nothing for the race detector), a request on an executor
+*without* `disableSuggestion` that validates between the two regions of another executor's first
+request sees a list with neither field-existence rule. Replayed on the real code by
+`h_c03 -mode window` (configuration "executor A … executor B"). -/
+theorem split_lock_window_witness :
+    ((exec (startMixed .split initRules 1 1) [0, 1]).threads[1]?).bind (·.seen) = some [.other] ∧
+    hasFieldRule [.other] = false ∧
+    ((exec (startMixed .atomic initRules 1 1) [0, 1]).threads[1]?).bind (·.seen) = some [.other, .ws] := by decide
+
+open Race in
 /-- non-vacuity: three threads, all of which reach `Validate` -/
 example : ((exec (start true initRules 3) [2, 0, 0, 1, 2, 1]).threads.map (·.seen)) =
     [some [.other, .ws], some [.other, .ws], some [.other, .ws]] := by decide
+
+/-! ## 7. Every transport keeps the gate closed
+
+`run` (sections 2–5) assumes that a transport hands a rejected request to `DispatchError` and an
+accepted one to `DispatchOperation`. That assumption is discharged here over the statements that
+follow `CreateOperationContext` in **each** transport of `graphql/handler/transport`, regenerated on
+every run (`Gen/TransportGates.lean`). -/
+
+open Transport in
+/-- the functions of `graphql/handler/transport` that call `CreateOperationContext` are exactly the
+transports the tie drives requests through (a new transport must be added to the harness) -/
+theorem gen_transports_are_the_harnessed_ones :
+    Gen.TransportGates.gates.map (fun g => (g.file, g.func)) = harnessed := by decide
+
+open Transport in
+/-- in every transport, for a protocol-kind rejection, a user-kind rejection and an accepted request:
+a rejected request reaches `DispatchError` once and never `DispatchOperation`, an accepted one reaches
+`DispatchOperation` once (decided on the regenerated statements; `.other` statements count as both) -/
+theorem gen_transport_gates_closed :
+    Gen.TransportGates.gates.all (fun g => closed g.prog) = true := by decide
+
+open Transport in
+/-- a transport whose gate is closed behaves like the `run` of `Model/Pipeline.lean`, whatever error
+kinds the extensions registered -/
+theorem closed_runT_eq_run {prog : List TStmt} (h : closed prog = true) (extProtocol : Nat → Bool)
+    (W : World) (C : CacheImpl σ Doc Nat) (cfg : Cfg) (s : St σ) (r : Req) :
+    runT prog extProtocol W C cfg s r = run W C cfg s r := by
+  simp only [closed, Bool.and_eq_true, beq_iff_eq] at h
+  obtain ⟨⟨hp, hu⟩, ha⟩ := h
+  unfold runT run
+  cases hc : create W C cfg s r with
+  | mk cr rest =>
+    cases rest with
+    | mk s' l =>
+      cases cr with
+      | rejected g n sg =>
+        have hk : (acts (.rejected (kindOf extProtocol g)) prog).1 = [.dispatchError] := by
+          cases kindOf extProtocol g <;> assumption
+        simp [hk, actsOut, actOut]
+      | ok op =>
+        simp only [ha, actsOut, actOut]
+        cases hd : dispatch cfg.exts r with
+        | mk lo st =>
+          cases st <;> simp
+
+open Transport in
+/-- **Every transport ⊨ Spec.** For every transport of the regenerated list, every assignment of error
+kinds to extensions, every lawful cache, every state reachable by a history, every request: a request
+failing any gate executes nothing and is answered with errors only; an accepted one runs the hooks in
+lifecycle order, first-registered outermost, each exactly as often as `Spec.expected` says; the
+executor accepts iff every gate passes. -/
+theorem transports_satisfy_spec (g : TGate) (hg : g ∈ Gen.TransportGates.gates) (extProtocol : Nat → Bool)
+    (W : World) {C : CacheImpl σ Doc Nat} {view : σ → Nat → Option Doc}
+    (law : Lawful C view) (cfg : Cfg) (s : St σ) (r : Req)
+    (hinv : Inv W view s.cache) (hc : Complete s.rules) :
+    Spec.ok W cfg.exts r (runT g.prog extProtocol W C cfg s r).1.log (runT g.prog extProtocol W C cfg s r).1.resps = true ∧
+    ((runT g.prog extProtocol W C cfg s r).1.gate = none ↔ (Spec.accepts W cfg.exts r).isSome = true) := by
+  have hcl : closed g.prog = true := List.all_eq_true.mp gen_transport_gates_closed g hg
+  rw [closed_runT_eq_run hcl]
+  exact ⟨(run_satisfies_spec W law cfg s r hinv hc).1, (run_satisfies_spec W law cfg s r hinv hc).2.1⟩
+
+/-- non-vacuity: the regenerated list is not empty and contains the websocket transport -/
+example : ∃ g ∈ Gen.TransportGates.gates, g.file = "websocket.go" := by decide
+
+open Transport in
+/-- **Why `closed` is needed** (the shape a websocket `subscribe` would have if only the protocol-kind
+arm ended the operation): a query that a context mutator rejects with a user-kind error gets its error
+answer *and* is executed — interceptors, directive and resolver run and a data answer follows; the Spec
+rejects that observation, while the same program is fine for a protocol-kind rejection. -/
+theorem open_gate_executes_rejected_witness :
+    let prog : List TStmt :=
+      [.onRejected [.dispatchError, .onKind [.send "sendError", .send "complete", .ret] [.send "sendResponse"]] [],
+       .dispatchOperation, .send "sendResponse"]
+    let W : World := { parse := fun _ => some { id := 0, ops := [⟨"", false, [0]⟩], nField := 0, nOther := 0, sugg := false } }
+    let cfg : Cfg := { exts := [{ id := 1, pm := false, cm := true, op := true, resp := false, root := false, field := true }] }
+    let r : Req := { q := 0, cmReject := [1], polls := 2 }
+    let o (userKind : Bool) := (runT prog (fun _ => !userKind) W noCache cfg ⟨(), initRules⟩ r).1
+    closed prog = false ∧
+    (o true).gate = some (.cm 1) ∧ (o true).log.any (·.isExecution) = true ∧
+    Spec.ok W cfg.exts r (o true).log (o true).resps = false ∧
+    Spec.ok W cfg.exts r (o false).log (o false).resps = true := by
+  decide
 
 end GqlgenVerif.Props.C03
